@@ -32,7 +32,7 @@ Last1(s) == IF s = <<>> THEN <<>> ELSE <<s[Len(s)]>>
 (* ------------------------------ tables ---------------------------------- *)
 Printable(b) == b \in 32..126
 RawS(R, b)    == R.s[b + 1]
-RawD(R, l, t) == IF R.d[l + 1] = <<>> THEN Undef ELSE R.d[l + 1][t + 1]
+RawD(R, ld, tl) == IF R.d[ld + 1] = <<>> THEN Undef ELSE R.d[ld + 1][tl + 1]
 Raw(R, q)     == IF Len(q) = 1 THEN RawS(R, q[1])
                  ELSE IF Len(q) = 2 THEN RawD(R, q[1], q[2]) ELSE Undef
 Substituted(R, b) == Printable(b) /\ RawS(R, b) # Undef /\ RawS(R, b) # <<b>>
@@ -48,13 +48,15 @@ FwdM(R, q, sub) == IF sub /\ Len(q) = 1 /\ Substituted(R, q[1]) THEN RawS(R, q[1
 \* q is listed for cluster u by the codepage (raw relation or derived map)
 Maps(R, q, u) == u # <<>> /\ (Fwd(R, q) = u \/ (Raw(R, q) = u /\ u # Undef))
 
-LeadOf(R)   == {l \in 0..255 : R.d[l + 1] # <<>>}
-TrailOf(R)  == {t \in 0..255 : \E l \in LeadOf(R) : R.d[l + 1][t + 1] # Undef}
+\* (no bound identifier may be called like a variable of a trace spec - l, viol -: TLC would take the
+\*  constant tables for state-dependent and re-evaluate them for every event)
+LeadOf(R)   == {ld \in 0..255 : R.d[ld + 1] # <<>>}
+TrailOf(R)  == {tl \in 0..255 : \E ld \in LeadOf(R) : R.d[ld + 1][tl + 1] # Undef}
 BoxOf(R, i) == {b \in 0..255 : RawS(R, b) = <<BoxU[i]>>}
 \* everything the converter needs to know about a codepage (computed once per codepage)
 \* (TLCEval: have TLC enumerate the sets once instead of re-evaluating the comprehension at every membership test)
 Derive(R) == LET ld == TLCEval(LeadOf(R))
-                 tr == TLCEval({t \in 0..255 : \E l \in ld : R.d[l + 1][t + 1] # Undef})
+                 tr == TLCEval({tl \in 0..255 : \E x \in ld : R.d[x + 1][tl + 1] # Undef})
                  b1 == TLCEval(BoxOf(R, 1))
                  b2 == TLCEval(BoxOf(R, 2))
              IN  [R |-> R, lead |-> ld, trail |-> tr, boxl |-> <<b1, b2>>, boxr |-> <<b1, b2>>, dbcs |-> ld # {}]
